@@ -7,8 +7,29 @@ VERIF = os.path.dirname(os.path.dirname(os.path.abspath(__file__)))
 CLAIMED = {
  "C01": ("§5 C01", "Exhaustive runtime sweep: all 2^32 day numbers (thorough, overflow-checked build) are pushed through from_timestamp/as_ymd/from_ymd/timestamp and judged against an independent calendar model, plus a boundary-dense grid of (year, month, day) triples; quick explores the structurally interesting 5e6 days. Held = no disagreement on the executions listed in the evidence.",
          "Trusted base: the harness calendar model (self-checked at start-up against a day-by-day walk). Triples are sampled (grid + random), not exhaustive over 5.4e9."),
+ "C02": ("§5 C02", "Exhaustive runtime sweep of weekday()/day_of_year() and of the e/w/q/D format fields over all 2^32 days (thorough), year-grid x day-of-year 0..=367 for the setter; quick covers the era boundary, 1600-2400, both range ends and a strided pass.",
+         "Trusted base: calendar model (ISO week = week of the Thursday on astronomical years)."),
+ "C03": ("§5 C03", "Stratified exploration of i64 timestamps (range edges, alignment classes, out-of-range) and of instant pairs with independent offsets; every ==/cmp/*_since sign is compared with i128 model instants.",
+         "Sampled, not exhaustive: 2e7 timestamps / 1e7 pairs in thorough. Instants are built/read through the public API, which is itself cross-checked here against the model."),
+ "C04": ("§5 C04", "Stratified exploration of (instant, offset, method, count) with counts placed at the 64-bit wrap thresholds and at the model-computed representability edge, in an overflow-checked and a release build; Duration/Time operators and Date arithmetic likewise.",
+         "Sampled over a 2^128-sized product space; bins in the evidence show which strata were hit."),
+ "C05": ("§5 C05", "All days of five multi-year windows (era boundary, century years, leap years, both range ends) x N=0..=48 x 4 operations exhaustively, plus special N (2^31, u32::MAX, landing on the first/last representable month) and random starts; oracle = month arithmetic on astronomical years.",
+         "For a DateTime carrying an offset the statement does not say whether the UTC or the local calendar date moves; both readings are accepted."),
+ "C06": ("§5 C06", "The C03 pair workload: all seven *_since compared with exact i128 differences truncated toward zero, antisymmetry, duration_between, and the add-inverse relation through the library's own add_*.",
+         "Sampled pairs (1e7 in thorough), rich in sub-unit borrow cases and era-straddling pairs."),
+ "C07": ("§5 C07", "Exhaustive over all ordered pairs of dates inside three multi-year windows (leap day, era boundary, common century year) in thorough, 400-day sub-windows in quick; DateTime pairs with times around the borrow point; random far-apart pairs.",
+         "Value claim only when the earlier date's day of month <= 28, as the property states; the reference month shift is the model's, not the library's."),
+ "C08": ("§5 C08", "All 86 400 seconds x sub-second boundaries x random (method, count); all ordered pairs of a boundary set for Time+-Time; Duration strata; constructor grids; DateTime->Time conversions in all eras; random API walks checked step by step against a mod-24h model.",
+         "Sampled counts; the invariant as_nanos() < 24h is checked on every Time the monitors see."),
+ "C09": ("§5 C09", "Boundary-dense instants x offsets that move the local date x 10 setters x candidate values and 9 clears, all ten getters + instant + offset compared with a local-field model; Date and Time subsets.",
+         "Results within one day of the range ends are skipped (no representable expectation)."),
+ "C10": ("§5 C10", "Exhaustive over all 172 799 offsets x stratified instants (4 in quick, 64 in thorough) for DateTime and Time: instant/order/differences unchanged, every getter and a formatted rendering equal the shifted instant's fields, as_offset semantics, Offset constructors over every second value.",
+         "Exhaustive in the offset dimension, sampled in the instant dimension."),
+ "C11": ("§5 C11", "Every (type, symbol, width 1..=10) against hundreds/thousands of stratified values plus random compositions with literals, quoting and multi-byte text, compared with a renderer written from the documentation tables.",
+         "Trusted base: fmt_spec (self-checked on the documentation's own examples). yy on negative years, NUL and unterminated quotes are outside the oracle."),
+ "C12": ("§5 C12", "Random (value, pattern) round trips with patterns drawn from an explicit unambiguous-field grammar; string-level fixpoint, instant/offset recovery when the pattern is complete, defaults for absent fields.",
+         "The grammar (model/pattern_gen.rs) is the quantifier: patterns outside it are not judged."),
 }
-
 def main():
     props = [json.loads(l) for l in open(os.path.join(VERIF, "properties.jsonl"))]
     hook_commits = []
